@@ -247,7 +247,7 @@ def _drop_logging(body, dropped):
     return out
 
 
-OPAQUE_MACROS = {'format': '__fmt_opaque', 'anyhow': 'anyhow'}
+OPAQUE_MACROS = {'format': '__fmt_opaque', 'anyhow': 'anyhow', 'panic': '__panic'}
 
 
 def _format_captures(lit):
